@@ -6,6 +6,7 @@ TIER="${1:-quick}"; shift
 DIRS="$@"; [ -z "$DIRS" ] && DIRS=$(ls -d seeded/C*/ )
 for d in $DIRS; do
   d=${d%/}; name=$(basename $d); id=${name%%-*}
+  cw=$(python3 -c "import json;print(json.load(open('$d/meta.json')).get('check_with',''))" 2>/dev/null); [ -n "$cw" ] && id=$cw
   out=$(scripts/mutant.sh $id $TIER $d/patch.diff 2>&1); rc=$?
   { echo "recheck of $name with tier $TIER against /repo HEAD $(git -C /repo rev-parse --short HEAD) on $(date -u +%FT%TZ): exit $rc => $( [ $rc -eq 1 ] && echo DETECTED || echo MISSED )"
     echo "$out" | grep -E "^VIOLATION|^  key=|^KNOWN|^C[0-9]+ (quick|thorough)|HARNESS|patch does not" | cut -c1-260 | head -40; } > $d/recheck.txt
